@@ -36,16 +36,16 @@ class Under:
         if kind == 'TemplateBuild':
             cls = type('TB', (self.part.PartitionedDistinguisherBase, self.tpl._TemplateBuildDistinguisherMixin), {})
             return cls(partitions=None, precision=precision)
-        if kind in ('TemplateMatch', 'TemplateMatchUnbuilt'):
-            cls = type('TM', (self.tpl.TemplateAttackDistinguisherMixin,), {})
+        if kind in ('TemplateMatch', 'TemplateMatchUnbuilt', 'TemplateDPAMatch'):
+            cls = type('TM', ((self.tpl.TemplateDPADistinguisherMixin if kind == 'TemplateDPAMatch' else self.tpl.TemplateAttackDistinguisherMixin),), {})
             o = cls(partitions=[0, 1], precision=precision)
             self.base._initialize_distinguisher(o, precision, 0)
-            o.is_build = kind == 'TemplateMatch'
+            o.is_build = kind != 'TemplateMatchUnbuilt'
             o.templates = H.sym_reals('TPL', (2, 2), precision); o.pooled_covariance = H.sym_reals('PC', (2, 2), 'float64'); o.pooled_covariance_inv = H.sym_reals('PCI', (2, 2), 'float64')
             return o
         raise KeyError(kind)
 
-KINDS = ['CPA', 'CPAAlt', 'DPA', 'ANOVA', 'SNRp', 'MIA', 'MIAauto', 'TemplateBuild', 'TemplateMatch', 'TemplateMatchUnbuilt']
+KINDS = ['CPA', 'CPAAlt', 'DPA', 'ANOVA', 'SNRp', 'MIA', 'MIAauto', 'TemplateBuild', 'TemplateMatch', 'TemplateMatchUnbuilt', 'TemplateDPAMatch']
 
 def snapshot(o):
     snap = {}
